@@ -130,14 +130,19 @@ ssize_t __wrap_writev(int fd, const struct iovec *iov, int cnt) {
 }
 
 // ------------------------------------------------------------------------------------------------ fixture: two cache servers
-static int free_tcp_port() {
-    int s = socket(AF_INET, SOCK_STREAM, 0);
-    sockaddr_in a{}; a.sin_family = AF_INET; a.sin_addr.s_addr = htonl(INADDR_LOOPBACK); a.sin_port = 0;
-    socklen_t l = sizeof a;
-    if (s < 0 || bind(s, (sockaddr *)&a, sizeof a) != 0 || getsockname(s, (sockaddr *)&a, &l) != 0) { if (s >= 0) close(s); return 0; }
-    int p = ntohs(a.sin_port);
-    close(s);
-    return p;
+// Every case opens fresh connections (2..6) and closes them again: left alone, the closing side's ports pile up in TIME_WAIT by the ten
+// thousand per minute and exhaust the ephemeral range of the whole (shared) machine.  connect() is interposed to switch lingering off, so
+// close() resets the connection instead (nothing is in flight then: every request has been answered).  The services listen on ports below
+// the ephemeral range, so starting them does not depend on a free ephemeral port either.
+extern "C" {
+int __real_connect(int fd, const struct sockaddr *a, socklen_t l);
+int __wrap_connect(int fd, const struct sockaddr *a, socklen_t l) {
+    int r = __real_connect(fd, a, l);
+    int e = errno;
+    if (a && a->sa_family == AF_INET) { struct linger lg; lg.l_onoff = 1; lg.l_linger = 0; setsockopt(fd, SOL_SOCKET, SO_LINGER, &lg, sizeof lg); }
+    errno = e;
+    return r;
+}
 }
 // The store a cache service works on: forwards to an in-memory cache that is replaced by a brand-new one at the start of every case, so
 // that every case sees what a freshly started cache server hands out (generation stamps from 0: stamps of different keys, of the two
@@ -164,17 +169,19 @@ struct Server {
 static Server g_srv[2];
 static void fresh_servers() { g_srv[0].cache->renew(); g_srv[1].cache->renew(); }
 static void start_servers() {
+    // the machine is shared: a port picked a moment ago may be taken, descriptors / threads may be scarce for a while - retry for about a minute
     for (int i = 0; i < 2; i++) {
         g_srv[i].cache = new RenewableCache();
-        for (int attempt = 0; attempt < 50 && !g_srv[i].srv; attempt++) {
-            int p = free_tcp_port();
-            if (!p) continue;
+        std::string why;
+        for (int attempt = 0; attempt < 240 && !g_srv[i].srv; attempt++) {
+            if (attempt) usleep(attempt < 20 ? 20000 : 300000);
+            int p = 10000 + (int)(((long long)getpid() * 7 + attempt * 101 + i * 13) % 20000);
             try {
                 g_srv[i].srv.reset(new cppcms::impl::tcp_cache_service(g_srv[i].cache, booster::shared_ptr<cppcms::sessions::session_storage_factory>(), 1, "127.0.0.1", p));
                 g_srv[i].port = p;
-            } catch (std::exception const &) { g_srv[i].srv.reset(); }
+            } catch (std::exception const &e) { why = e.what(); g_srv[i].srv.reset(); }
         }
-        if (!g_srv[i].srv) { fprintf(stderr, "cannot start cache server %d\n", i); _exit(3); }
+        if (!g_srv[i].srv) { fprintf(stderr, "cannot start cache server %d: %s\n", i, why.c_str()); _exit(3); }
     }
 }
 
@@ -359,7 +366,7 @@ struct Runner {
         if (mode == 0) r = cl[ci]->fetch(k, &val, &tags, &to, &gen);
         else if (mode == 1) r = cl[ci]->fetch(k, &val, 0, &to, &gen);
         else r = cl[ci]->fetch(k, 0, 0, 0, 0);
-        trace.push_back("c" + std::to_string(ci) + (sweep ? ".sweep(" : ".fetch(") + vr::show(k, 16) + ")=" + (r ? "hit/" + std::to_string(val.size()) + "B" : "miss"));
+        trace.push_back("c" + std::to_string(ci) + (sweep ? ".sweep(" : ".fetch(") + vr::show(k, 16) + ")=" + (r ? (mode == 2 ? std::string("hit") : "hit/" + std::to_string(val.size()) + "B") : "miss"));
         std::string who = "client " + std::to_string(ci) + (has_l1 ? " (L1)" : " (no L1)") + " fetch(" + vr::show(k, 40) + ")";
         if (!e) {
             if (r) {
